@@ -3,7 +3,7 @@
 functions against an independent implementation (Python hashlib) on every length 0..300 and
 recompute the SHA-2 constant tables from the primes with exact integer arithmetic.
 Exit 0 = all specifications agree with the standards."""
-import hashlib, os, subprocess, sys, tempfile
+import hashlib, os, shutil, subprocess, sys, tempfile
 from math import isqrt
 
 VERIF = os.path.dirname(os.path.dirname(os.path.dirname(os.path.abspath(__file__))))
@@ -13,8 +13,10 @@ exe = os.path.join(tmp, "spec_selftest")
 subprocess.check_call(["gcc", "-O1", "-I" + VERIF, "-o", exe, src, "-lm"])
 rc = subprocess.call([exe])
 if rc != 0:
+    shutil.rmtree(tmp, ignore_errors=True)
     sys.exit(1)
 out = subprocess.check_output([exe, "dump"], text=True).splitlines()
+shutil.rmtree(tmp, ignore_errors=True)
 
 def icbrt(n):
     x = 1 << ((n.bit_length() + 2) // 3)
